@@ -82,6 +82,7 @@ def folded(prog):
 
 LOG = []
 ARMED = [False]
+CALLS = [0]
 
 
 def _frame():
@@ -122,9 +123,16 @@ def make_sentinel_class():
             return object.__getattribute__(self, name)
 
         def meth(self, *a):
+            CALLS[0] += 1
+            if CALLS[0] > 20000:
+                raise RuntimeError("sentinel method called too often in one evaluation")
             return self
 
         def __call__(self, *a):
+            # (bounded: `all(iter(from, 'x'))` calls its first argument until it returns 'x', i.e. for ever)
+            CALLS[0] += 1
+            if CALLS[0] > 20000:
+                raise RuntimeError("sentinel called too often in one evaluation")
             return self
 
         def __len__(self):
@@ -345,6 +353,7 @@ def check(case, ctx):
     outcome = None
     for kind in kinds:
         e = env(kind)
+        CALLS[0] = 0
         ARMED[0] = True
         try:
             try:
